@@ -64,7 +64,10 @@ def _is_list(t):
     return isinstance(t, dict) and "list" in t
 
 
-def regions(desc, value, ctx=None):
+SUBCLASS_OFF = "out-of-claim: instance of a proper subclass (fragments without inheritance)"
+
+
+def regions(desc, value, ctx=None, inherit=True):
     """known findings / out-of-claim regions an instance of a WIDE_FEATURES universe falls under
     (`ctx`: the exported metadata, needed for the qualified names an `Attributes` map may hold)"""
     by = {c["name"]: c for c in desc["classes"]}
@@ -240,6 +243,8 @@ def regions(desc, value, ctx=None):
                         out.append(NIL_CLASS)
                 elif isinstance(y, dict) and "obj" in y:
                     sub = is_cls and y["obj"] != base["cls"]
+                    if sub and not inherit:
+                        out.append(SUBCLASS_OFF)
                     if sub:
                         var = next(w for _, vs in meta["elements"] for w in vs if w["name"] == f["name"])
                         derived(base["cls"], y["obj"], var, child_pns)
@@ -317,12 +322,23 @@ def _seq_ok(vs):
     return True
 
 
-def ctx_expected(ctx, ns_agree):
-    """`ctxOK FEAT` on exported universes of WIDE_FEATURES: everything but a class with a text var and
-    child elements, and token-list or wrapped vars inside a sequence group (`seqOK`)"""
+def ctx_expected(ctx, ns_agree, feat=None):
+    """`ctxOK feat` (default: all features, `FEAT`) on exported universes of WIDE_FEATURES: every
+    feature the universe uses is switched on; no class with a text var and child elements; no
+    token-list or wrapped var inside a sequence group (`seqOK`); the wildcard is a plain list"""
+    feat = FEAT if feat is None else feat
+    on = lambda k: bool(feat.get(k))  # noqa: E731
     for ci in ctx["classes"]:
         for _, m in ci["metas"]:
             vs = [v for _, vv in m["elements"] for v in vv]
+            if (m["nillable"] and not on("nillable")) or (m["wildcards"] and not on("wildcard")) \
+                    or (m["any_attributes"] and not on("anyAttrs")):
+                return False
+            for v in vs + [w for _, w in m["attributes"]] + ([m["text"]] if m["text"] else []):
+                if (not v["init"] and not on("fixed")) or (v["sequence"] is not None and not on("sequence")) \
+                        or (v["nillable"] and not on("nillable")) or (v["tokens"] and not on("tokens")) \
+                        or (v["wrapper_qname"] and not on("wrapper")):
+                    return False
             if m["text"] and (vs or m["wildcards"]):
                 return False  # a subclass adds child elements to a class with a text var (not in the fragments)
             if not _seq_ok(vs):
@@ -463,6 +479,37 @@ def normal_generic(value):
 
     walk(v)
     return v
+
+
+# the feature sets of the theorems bind_generate_F2 … F8 (Props/C01Wide.lean)
+_ORDER = ["nillable", "tokens", "wrapper", "sequence", "fixed", "anyAttrs", "inherit", "wildcard"]
+FRAGMENTS = {
+    "F2": {"nillable": True},
+    "F3": {"nillable": True, "tokens": True},
+    "F4": {"nillable": True, "tokens": True, "wrapper": True},
+    "F5": {"nillable": True, "tokens": True, "wrapper": True, "sequence": True},
+    "F6": {"nillable": True, "tokens": True, "wrapper": True, "sequence": True, "fixed": True, "anyAttrs": True},
+    "F7": {"nillable": True, "tokens": True, "wrapper": True, "sequence": True, "fixed": True, "anyAttrs": True, "inherit": True},
+    "F8": dict(FEAT),
+}
+
+
+def pick_feat(rng):
+    """a fragment of the theorems, the empty feature set, or any subset (`bind_generate_FN`)"""
+    r = rng.random()
+    if r < 0.6:
+        name = rng.choice(sorted(FRAGMENTS))
+        return name, dict(FRAGMENTS[name])
+    if r < 0.7:
+        return "F1'", {}
+    return "FN", {k: True for k in _ORDER if rng.random() < 0.6}
+
+
+def features_for(rng, feat):
+    """generator features that mostly stay inside `feat` (and sometimes do not)"""
+    need = {"nillable": "nillable", "tokens": "tokens", "wrapper": "wrapper", "sequence": "sequence", "attributes": "anyAttrs",
+            "fixed": "fixed", "inherit": "inherit", "wildcard": "wildcard"}
+    return {f for f in WIDE_FEATURES if f not in need or feat.get(need[f]) or rng.random() < 0.06}
 
 
 CORPUS = []
